@@ -797,8 +797,12 @@ static void check_order(trial_t *t)
 			 * the cancellation of its event source on the old one's close queue (it needed the source: pipe full). Both succeed,
 			 * bytes in order, handlers swapped. Known (K8), keyed separately. */
 			int conv_regen = a->conv && b->conv && a->err_done == 0 && b->err_done == 0 && !zero;
+			/* the same when the peer has gone away: the first call fails (EPIPE) after moving some bytes, its registration is
+			 * being torn down, the second call fails at once on a fresh one */
+			int conv_regen_failed = a->conv && b->conv && a->err_done != 0 && a->err_done == b->err_done && a->err_done != ECANCELED && !zero;
 			snprintf(k, sizeof(k), zero ? "C14:%s:zero-length-op-completes-out-of-order" : canc ? "C14:%s:ops-complete-out-of-order:cancelled-by-stop" :
 					conv_regen ? "C14:%s:ops-complete-out-of-order:convenience-api:both-succeeded" :
+					conv_regen_failed ? "C14:%s:ops-complete-out-of-order:convenience-api:both-failed-alike" :
 					pending ? "C14:%s:ops-complete-out-of-order:earlier-op-still-delivering" :
 					pending_failed ? "C14:%s:ops-complete-out-of-order:earlier-op-still-delivering:both-failed-alike" :
 					pending_later_failed ? "C14:%s:ops-complete-out-of-order:earlier-op-still-delivering:later-op-failed" : "C14:%s:ops-complete-out-of-order", dn);
